@@ -31,6 +31,7 @@ fn run(r: &mut Run) -> Result<(), MachineryError> {
     text_space(r, "C02/rich", &[L, SP, HY, TAB, ZW, NB, OP, CL, EM, E2, NL, D], t.pick(3, 5), &g, M_C02, WidthMode::Display, 3)?;
     text_space(r, "C02/sequences-with-hyphens", &[L, SP, HY, OSH, CSI, NL, D], t.pick(4, 6), &g, M_C02, WidthMode::Display, 3)?;
     char_context_space(r, "C02/all-characters-in-context", M_C02, vec![Alg::FirstFit])?;
+    reps::char_pair_space(r, "C02/representative-pairs", M_C02, vec![Alg::FirstFit])?;
     escape_scan_space(r, "C02/escape-grammar-scan", M_C02, vec![Alg::FirstFit])?;
     word_seq_space(r, "C02/word-sequences", M_C02, vec![Alg::FirstFit])?;
     scale::text_scale(r, "C02/long-paragraphs", "C02")
